@@ -87,6 +87,7 @@ def run_value_case(case, itype_filter=None, extra_monitors=None):
                 only=itype_filter,
                 delta=td.delta,
                 wscale=case.get("wscale", 1.0),
+                data_fixed=case.get("data_fixed"),
             )
         except O.Unsupported as e:
             return {"verdict": INCONCLUSIVE, "why": f"oracle unsupported: {e}"}
